@@ -126,7 +126,9 @@ VHDX_FILE_PARAMS = 'CAA16737-FA36-4D43-B3B6-33F0AA44E76B'
 VHDX_LSS = '8141BF1D-A96F-4709-BA47-F233A8FAAB5F'
 VHDX_PSS = 'CDA348C7-445D-4471-9CC9-E9885251C556'
 VHDX_PAGE83 = 'BECA12AB-B2E6-4523-93EF-C309E000C746'
-_FOREIGN_META = (VHDX_FILE_PARAMS, VHDX_LSS, VHDX_PSS, VHDX_PAGE83)
+VHDX_PARENT_LOCATOR = 'A8D35F2D-B30B-454D-ABF7-D3D84834AB0C'
+_FOREIGN_META = (VHDX_FILE_PARAMS, VHDX_LSS, VHDX_PSS, VHDX_PAGE83,
+                 VHDX_PARENT_LOCATOR)
 
 
 def _guid(s):
@@ -151,7 +153,8 @@ def build_vhdx(size=10 * MI, meta_offset=256 * KI, region_before=0,
                region_after=1, region_count=None, meta_before=1, meta_after=2,
                meta_count=None, item_offset=64 * KI, item_length=8, tail=0,
                fill=0, regi_sig=b'regi', meta_sig=b'metadata',
-               ident=b'vhdxfile', pad='foreign', meta_len=MI):
+               ident=b'vhdxfile', pad='foreign', meta_len=MI,
+               pad_item_length=4):
     """A VHDX whose header area, region table and metadata region follow the
     MS-VHDX layout.  ``fill`` != 0 fills every byte the format leaves free
     with filler (0 = zeros, as qemu-img writes them)."""
@@ -202,8 +205,8 @@ def build_vhdx(size=10 * MI, meta_offset=256 * KI, region_before=0,
                                   b'\0' * 20)
     mentries = []
     for i in range(meta_before):
-        mentries.append(_guid(_FOREIGN_META[i % 4])
-                        if (i < 4 and pad == 'foreign')
+        mentries.append(_guid(_FOREIGN_META[i % 5])
+                        if (i < 5 and pad == 'foreign')
                         else _foreign_guid(200 + i, pad))
     mentries.append(_guid(VHDX_VDS))
     for i in range(meta_after):
@@ -214,7 +217,8 @@ def build_vhdx(size=10 * MI, meta_offset=256 * KI, region_before=0,
             body = struct.pack('<IIII', item_offset & 0xffffffff,
                                item_length & 0xffffffff, 0x4, 0)
         else:
-            body = struct.pack('<IIII', 64 * KI + 16 + 8 * i, 4, 0, 0)
+            body = struct.pack('<IIII', 64 * KI + 16 + 8 * i,
+                               pad_item_length & 0xffffffff, 0, 0)
         buf[off:off + 32] = g + body
     # the size item itself
     io = mt + item_offset
@@ -235,6 +239,7 @@ def build_vhdx(size=10 * MI, meta_offset=256 * KI, region_before=0,
                     meta_after=meta_after, meta_count=meta_count,
                     item_offset=item_offset, item_length=item_length,
                     tail=tail, fill=fill, pad=pad, meta_len=meta_len,
+                    pad_item_length=pad_item_length,
                     regi_sig=regi_sig.decode('latin-1'),
                     meta_sig=meta_sig.decode('latin-1'),
                     ident=ident.decode('latin-1')),
@@ -364,7 +369,17 @@ def build_vmdk(lines=VMDK_DEFAULT_LINES, version=1, capacity=20480,
         desc = text.ljust(need * 512, b'\0')
     buf[start:start + len(desc)] = desc
     buf.extend(rnd(fill, grain_data))
-    unsafe = set(classify_vmdk_lines(lines)) if desc_raw is None else set()
+    if desc_raw is None:
+        unsafe = set(classify_vmdk_lines(lines))
+    else:
+        # the descriptor is NUL padded: it ends at the first NUL, whatever
+        # follows is padding and not part of it
+        head = desc_raw.split(b'\x00', 1)[0]
+        try:
+            unsafe = set(classify_vmdk_lines(
+                head.decode('ascii').split('\n')))
+        except UnicodeDecodeError:
+            unsafe = {'descriptor_not_ascii'}
     murky = '?type' in unsafe
     unsafe.discard('?type')
     if footer:
@@ -405,7 +420,8 @@ def build_vmdk(lines=VMDK_DEFAULT_LINES, version=1, capacity=20480,
                     truncate=truncate),
                vsize=capacity * 512, boundaries=bounds, size_field_end=20,
                struct_end=desc_end, unsafe=unsafe,
-               clean=(not unsafe) and truncate is None and desc_raw is None
+               clean=(not unsafe) and truncate is None and
+               (desc_raw is None or b'\x00' not in desc_raw.rstrip(b'\x00'))
                and 1 <= dnum <= 2047 and not murky,
                note='createType only inside another line' if murky else None)
 
@@ -478,7 +494,7 @@ PTE_CLASSES = ('empty', 'data', 'prot_ok', 'prot_bad_chs', 'prot_bad_lba')
 BOOT_CLASSES = (0x00, 0x80, 0x01)
 
 
-def pte(cls, boot=0x00, salt=0):
+def pte(cls, boot=0x00, salt=0, prot_size=0xffffffff):
     if cls == 'empty':
         return struct.pack('<B3BB3BII', boot, 0, 0, 0, 0x00, 0, 0, 0, 0, 0)
     if cls == 'data':
@@ -486,7 +502,7 @@ def pte(cls, boot=0x00, salt=0):
                            0xfe, 0xff, 0xff, 2048 + salt, 409600)
     if cls == 'prot_ok':
         return struct.pack('<B3BB3BII', boot, 0x00, 0x02, 0x00, 0xEE,
-                           0xff, 0xff, 0xff, 1, 0xffffffff)
+                           0xff, 0xff, 0xff, 1, prot_size & 0xffffffff)
     if cls == 'prot_bad_chs':
         return struct.pack('<B3BB3BII', boot, 0x00, 0x01, 0x00, 0xEE,
                            0xff, 0xff, 0xff, 1, 0xffffffff)
@@ -513,7 +529,9 @@ def mbr_unsafe(entries):
 
 
 def build_gpt(entries=(('prot_ok', 0),) + (('empty', 0),) * 3, length=5120,
-              fill=0, fat=False, sig=b'\x55\xaa'):
+              fill=0, fat=False, sig=b'\x55\xaa', prot_size=0xffffffff):
+    """prot_size: the size-in-LBA field of protective (0xEE) entries; it may
+    be smaller or larger than the stream (a truncated or grown image)."""
     sec = bytearray(rnd(fill, 446) if fill else bytes(446))
     if fill:
         # keep the sector from looking like a FAT boot sector by accident
@@ -523,7 +541,7 @@ def build_gpt(entries=(('prot_ok', 0),) + (('empty', 0),) * 3, length=5120,
         sec[0x10] = 2
         sec[0x15] = 0xF8
     for i, (cls, boot) in enumerate(entries):
-        sec += pte(cls, boot, salt=i)
+        sec += pte(cls, boot, salt=i, prot_size=prot_size)
     sec += sig
     assert len(sec) == 512
     body = rnd(fill + 1, max(0, length - 512)) if fill else bytes(
@@ -532,7 +550,7 @@ def build_gpt(entries=(('prot_ok', 0),) + (('empty', 0),) * 3, length=5120,
     unsafe = mbr_unsafe(list(entries))
     return Img('gpt', data,
                dict(entries=[list(e) for e in entries], length=length,
-                    fill=fill, fat=fat, sig=sig.hex()),
+                    fill=fill, fat=fat, sig=sig.hex(), prot_size=prot_size),
                vsize=len(data),
                boundaries=(0x10, 0x15, 446, 462, 478, 494, 510, 512),
                struct_end=512, unsafe=unsafe,
